@@ -363,9 +363,8 @@ func c21RoundRobin(e *c21Env, rng *rand.Rand, cases int) {
 			return d
 		}
 		r.Count("rr_messages", int64(msgs))
-		if counterAfter != preset+uint32(msgs) {
-			r.Violation("roundrobin-counter-not-advanced-per-message", detail(nil))
-		}
+		// (the value of the internal counter is not judged: only which routee
+		// handled which message is observable behaviour)
 		// 1. exactly once
 		panickedIdx := false
 		for _, f := range routerFailures {
